@@ -294,35 +294,56 @@ func loopDepthOf(b *ssa.BasicBlock) int {
 // buffered words of a line into tokens may emit at most one token per buffered word: the token literal lies in the loop
 // over the words and in no loop nested inside it.
 func checkOneTokenPerWord(c *Ctx, p *core.Prog, rule string) {
-	fn := p.Func(v2pkg, "stringifyLineBuf")
-	if !c.R.Anchor(fn != nil, "v2.stringifyLineBuf") {
-		return
+	// the functions that turn buffered words into tokens: those that build token literals, other than the stream
+	// loop itself (which only makes the end-of-line tokens)
+	var stream *ssa.Function
+	for _, f := range v2Funcs(p) {
+		for _, call := range core.CallsIn(f) {
+			if core.StaticCalleeName(call.Common()) == "unicode/utf8.DecodeRune" {
+				stream = f
+			}
+		}
 	}
 	n := 0
-	for _, f := range pkgClosure(fn, v2pkg) {
-		if f != fn && f.Parent() == nil {
-			continue // other package-level functions (dictionary, cleanupToken) build no tokens of their own line
+	for _, f := range v2Funcs(p) {
+		if f == stream || (f.Parent() != nil && f.Parent() == stream) {
+			continue
 		}
-		for _, lit := range structLits([]*ssa.Function{f}, "/v2.indexedToken") {
+		lits := structLits([]*ssa.Function{f}, "/v2.indexedToken")
+		if len(lits) == 0 {
+			continue
+		}
+		// f and the unexported helpers it calls to prepare the words
+		scope := []*ssa.Function{f}
+		for _, call := range core.CallsIn(f) {
+			if g := call.Common().StaticCallee(); g != nil && g != f && core.FuncPkgPath(g) == v2pkg && len(g.Blocks) > 0 && g.Signature.Results().Len() == 1 {
+				if sl, isSl := g.Signature.Results().At(0).Type().Underlying().(*types.Slice); isSl && isString(sl.Elem()) {
+					scope = append(scope, g)
+				}
+			}
+		}
+		for _, lit := range lits {
 			n++
 			d := loopDepthOf(lit.alloc.Block())
 			// when the tokens are made from an intermediate list of words, that list gets at most one entry per
 			// buffered word too
-			for _, b := range f.Blocks {
-				for _, in := range b.Instrs {
-					call, ok := in.(*ssa.Call)
-					if !ok {
-						continue
-					}
-					bi, isB := call.Call.Value.(*ssa.Builtin)
-					if !isB || bi.Name() != "append" || len(call.Call.Args) < 2 {
-						continue
-					}
-					if sl, isSl := call.Call.Args[0].Type().Underlying().(*types.Slice); !isSl || !isString(sl.Elem()) {
-						continue
-					}
-					if da := loopDepthOf(call.Block()); da > d {
-						d = da
+			for _, g := range scope {
+				for _, b := range g.Blocks {
+					for _, in := range b.Instrs {
+						call, ok := in.(*ssa.Call)
+						if !ok {
+							continue
+						}
+						bi, isB := call.Call.Value.(*ssa.Builtin)
+						if !isB || bi.Name() != "append" || len(call.Call.Args) < 2 {
+							continue
+						}
+						if sl, isSl := call.Call.Args[0].Type().Underlying().(*types.Slice); !isSl || !isString(sl.Elem()) {
+							continue
+						}
+						if da := loopDepthOf(call.Block()); da > d {
+							d = da
+						}
 					}
 				}
 			}
@@ -331,7 +352,7 @@ func checkOneTokenPerWord(c *Ctx, p *core.Prog, rule string) {
 				fmt.Sprintf("a token (or an entry of the word list the tokens are made from) is produced in %d nested loops: one buffered word can yield several tokens, so token indices can reach or exceed the number of input words", d))
 		}
 	}
-	c.R.RequireMin(rule, "token literals in stringifyLineBuf", n, 1)
+	c.R.RequireMin(rule, "token literals outside the stream loop", n, 1)
 }
 
 func checkCopyrightLiteral(c *Ctx, p *core.Prog, lit structLit, rule string) {
